@@ -1,4 +1,5 @@
 import raychk
+import roundir
 import switches
 
 
@@ -12,3 +13,9 @@ def check(rep, tier, replay=None):
         "examined is a necessary condition of the identity for all a (not a proof).  Rounding is not modelled.")
     rep.trusted.update(["lib/rays.py / lib/jet.py exact series arithmetic", "clang++-16 -O2 pipeline (value-preserving without -ffast-math)"])
     raychk.run(rep, tier, "C02", ["exp", "logexp"], 1e-9)
+    rep.explanations.append(
+        "Rule RND (props/roundir.py): the same optimized IR is interpreted in the domain (value, first-order absolute rounding bound) on a grid of rotation angles -- "
+        "log-spaced 1e-9..3, both sides of every comparison constant found in the IR (the small-angle switches) and pi - 10^-k -- in double and single unit roundoff.  "
+        "A bound >= 100x the tolerance (relative to the largest output entry; within 1e-5 (double) / 1e-2 (float) of pi the looser near-pi tolerance of the log round trip) "
+        "is a violation naming the angle and entry; a smaller excess is a note.  It decides the conditioning of the compiled formulas, not measured error.")
+    roundir.run(rep, tier, "C02", ["exp", "logexp"], 1e-9, 1e-3, near_pi={"logexp": (1e-5, 1e-7, 1e-2, 1e-2)})
